@@ -123,6 +123,8 @@ impl Object for PagesRc {
                         Some(&Primitive::Reference(parent)) => r = parent,
                         _ => break
                     }
+                    // an object that is nothing but a reference to the node: one more level
+                    Ok(Primitive::Reference(node)) => r = node,
                     // (the load reports it)
                     _ => break
                 }
